@@ -155,6 +155,9 @@ func (fc *FuncCtx) callUnknownFuncVal(call *ast.CallExpr, st *St) []Term {
 	st.bufh = fc.fresh("bufh", st.bufh.Sort)
 	fc.materialiseGlobals(st)
 	for g := range st.glob {
+		if fc.E.CS.GhostGlobals[g] {
+			continue
+		}
 		st.glob[g] = fc.fresh("glob_"+g, st.glob[g].Sort)
 	}
 	fc.unknownCalls++
@@ -496,6 +499,9 @@ func (fc *FuncCtx) runGhostAts(call *ast.CallExpr, before bool, st *St, results 
 		if !before {
 			if len(results) > 0 {
 				extra["ret"] = results[0]
+			}
+			for k, r := range results {
+				extra[fmt.Sprintf("ret%d", k)] = r
 			}
 			for k, v := range fc.lastCalleeGhosts {
 				extra["c_"+k] = v
@@ -1144,6 +1150,8 @@ func (fc *FuncCtx) callByContract(con *Contract, ref *FuncRef, fn *types.Func, a
 				if msg := fc.checkLikeArg(like, a.Fn); msg != "" {
 					fc.nanon++
 					fc.oblig(st, fmt.Sprintf("call.%s.param.%s.like#%d", con.Key, n, fc.nanon), False, "the function value passed for "+n+" must be "+like+": "+msg, "", nil)
+				} else {
+					fc.checkLikeBinding(like, a.Fn, con.Key, n, st)
 				}
 			}
 			if a.Fn != nil && (a.Fn.Kind == "lit" || a.Fn.Kind == "named") && !con.Extern {
@@ -1196,7 +1204,19 @@ func (fc *FuncCtx) callByContract(con *Contract, ref *FuncRef, fn *types.Func, a
 	if call != nil {
 		pos = fc.pos(call)
 	}
+	// formals whose actual is unknown here (the `_` positions of a like-contract): a precondition that mentions
+	// one of them cannot be evaluated at this call; it is checked where the closure that fixes them is handed over
+	unknownFormals := map[string]bool{}
+	for i, n := range names {
+		if i < len(args) && args[i].Fn == nil && args[i].Sort != nil && args[i].Sort.Kind == KFunc && args[i].S == "0" {
+			unknownFormals[n] = true
+		}
+	}
 	for _, r := range con.Requires {
+		if len(unknownFormals) > 0 && specMentions(r.Expr, unknownFormals) {
+			fc.Assumed["precondition "+r.Name+" of "+con.Key+" concerns an argument fixed by the closure behind a like-parameter: checked where that closure is handed over, assumed at the call through the parameter"] = true
+			continue
+		}
 		fc.oblig(st, "call."+ord+".pre."+r.Name, fc.spec(r.Expr, env), "precondition of "+con.Key+": "+r.Src, pos, nil)
 		st.assume(fc.spec(r.Expr, env))
 	}
@@ -1876,6 +1896,87 @@ func (fc *FuncCtx) checkLikeArg(like string, fv *FuncVal) string {
 		return ""
 	}
 	return "unsupported function value"
+}
+
+// checkLikeBinding: a literal `func(..) { return F(x, y, $k..) }` handed over for a like-parameter fixes the
+// arguments of F at the free positions.  The preconditions of F that concern ONLY those arguments are proved
+// here (in the closure's defining state); the ones that concern the callback's own arguments are proved at
+// each call through the parameter.
+func (fc *FuncCtx) checkLikeBinding(like string, fv *FuncVal, calleeKey, pname string, st *St) {
+	if fv == nil || fv.Kind != "lit" || fv.Lit == nil || len(fv.Lit.Body.List) != 1 {
+		return
+	}
+	target, mapping, err := parseLike(like)
+	if err != nil {
+		return
+	}
+	rs, ok := fv.Lit.Body.List[0].(*ast.ReturnStmt)
+	if !ok || len(rs.Results) != 1 {
+		return
+	}
+	call, ok := ast.Unparen(rs.Results[0]).(*ast.CallExpr)
+	if !ok {
+		return
+	}
+	key := fc.Pkg.Name + "." + target
+	tcon := fc.E.CS.Funcs[key]
+	ref := fc.E.FuncDecl[key]
+	if tcon == nil || ref == nil || len(tcon.Requires) == 0 {
+		return
+	}
+	work := st.clone()
+	for k, v := range fv.Env.vars {
+		if _, ok := work.vars[k]; !ok {
+			work.vars[k] = v
+		}
+	}
+	env := fc.newEnv(st)
+	env.calleeCon = tcon
+	fixed := map[string]bool{}
+	open := map[string]bool{}
+	fc.infoStack = append(fc.infoStack, fv.Info)
+	nobl := len(fc.Obls)
+	for i, id := range formalObjs(ref) {
+		if id == nil || i >= len(mapping) || i >= len(call.Args) {
+			continue
+		}
+		if mapping[i] == -1 {
+			func() {
+				defer func() { recover() }()
+				env.bound[id.Name] = fc.evalPure(call.Args[i], work)
+				fixed[id.Name] = true
+			}()
+		} else {
+			open[id.Name] = true
+		}
+	}
+	fc.Obls = fc.Obls[:nobl]
+	fc.infoStack = fc.infoStack[:len(fc.infoStack)-1]
+	// a fixed argument that is itself a function value for a like-parameter of the target: check it the same way
+	for fname := range fixed {
+		if lk, ok := tcon.ParamSpecs[fname]; ok && strings.HasPrefix(lk, "like ") {
+			if v := env.bound[fname]; v.Fn != nil {
+				if msg := fc.checkLikeArg(lk, v.Fn); msg != "" {
+					fc.nanon++
+					fc.oblig(st, fmt.Sprintf("call.%s.param.%s.like#%d", key, fname, fc.nanon), False, "the function value fixed for "+fname+" of "+key+" must be "+lk+": "+msg, "", nil)
+				} else {
+					fc.checkLikeBinding(lk, v.Fn, key, fname, st)
+				}
+			}
+		}
+	}
+	for _, r := range tcon.Requires {
+		if !specMentions(r.Expr, fixed) || specMentions(r.Expr, open) {
+			continue
+		}
+		if t, ok := fc.specTry(r.Expr, env); ok {
+			fc.nanon++
+			fc.oblig(st, fmt.Sprintf("call.%s.param.%s.like.pre.%s#%d", calleeKey, pname, r.Name, fc.nanon), t, "precondition of "+key+" on the arguments fixed by the closure handed over for "+pname+": "+r.Src, "", nil)
+		} else {
+			fc.nanon++
+			fc.oblig(st, fmt.Sprintf("call.%s.param.%s.like.pre.%s#%d", calleeKey, pname, r.Name, fc.nanon), False, "precondition of "+key+" on the arguments fixed by the closure handed over for "+pname+" does not translate here: "+r.Src, "", nil)
+		}
+	}
 }
 
 // specTry translates a spec expression; ok=false (and no error recorded) if it does not translate.
